@@ -29,7 +29,9 @@ LEVEL_NOTE = ('holds for the enumerated data sets only (float64, grow=0, no maxr
 RULE = ('case = one iterfit call: (data set, order, knot option, non-positive-weight set, outlier placement+magnitudes, weight pattern, upper, lower, maxiter, input permutation). '
         'Non-trivial: part P when the reference loop rejects at least one point or a weight is non-positive; part O when the permutation is not the identity; parts W and G (coverage hole) always. '
         'Distinct = distinct case tuples.')
-ASSUMPTIONS = ['tied abscissae are included (one 12-point set): the curve is still unique and the mask is compared per point identity; at least one positive inverse variance (otherwise iterfit raises ValueError by design)',
+ASSUMPTIONS = ['a threshold keyword that is not passed acts as the documented default 5 (calls with only upper, only lower, or neither are enumerated)',
+               'documented breakpoint construction is checked where the docstring pins it down: nbkpts = that many equally spaced breakpoints over the good-point range (minimum 2); bkspace = breakpoints exactly bkspace apart when the range is a whole multiple of it (otherwise floor or ceil(range/bkspace) equal intervals are both accepted)',
+               'tied abscissae are included (one 12-point set): the curve is still unique and the mask is compared per point identity; at least one positive inverse variance (otherwise iterfit raises ValueError by design)',
                'coverage hole (part G): decidable clauses only - mask False at invvar<=0, permutation invariance, curve == dense weighted LSQ on the surviving breakpoints (sset.mask) for the returned mask or a predecessor mask whose rejection pass yields it; runs that stop at the iteration limit right after a failed fit (status codes observed through a pass-through wrapper of bspline.fit) and runs whose surviving-knot problem is rank deficient are skipped and counted',
                'curve tolerances (1e-9 + 1e-13*cond^2)*scale against the oracle (cond <= 1e4), 1e-6*scale between two pydl runs that differ only in input order',
                'knots are taken from the returned object (their placement is C08); the reference fits on exactly those knots',
@@ -95,10 +97,46 @@ def call_iterfit(case, perm=None):
     keep = (x.copy(), y.copy(), w.copy())
     with warnings.catch_warnings():
         warnings.simplefilter('ignore')
-        sset, mask = iterfit(x, y, invvar=w, nord=case['k'], upper=case['upper'], lower=case['lower'],
-                             maxiter=case['maxiter'], **knot_kwargs(case['knots']))
+        thr_kw = {key: case[key] for key in ('upper', 'lower') if case.get(key) is not None}      # None: keyword not passed at all
+        sset, mask = iterfit(x, y, invvar=w, nord=case['k'], maxiter=case['maxiter'], **thr_kw, **knot_kwargs(case['knots']))
     modified = not (np.array_equal(x, keep[0]) and np.array_equal(y, keep[1]) and np.array_equal(w, keep[2]))
     return sset, np.asarray(mask), modified
+
+
+def thresholds(case):
+    """(upper, lower) the documented procedure uses: a threshold that is not passed defaults to 5 sigma, each on its own."""
+    return (5 if case.get('upper') is None else case['upper'], 5 if case.get('lower') is None else case['lower'])
+
+
+def check_breakpoints(case, sset, x, w):
+    """Documented breakpoint construction for the options that state one: nbkpts = that many equally spaced breakpoints
+    spanning the good-point range (minimum 2); bkspace = breakpoints that far apart - decided only where it is unambiguous:
+    if the range is a whole multiple of bkspace the breakpoints are exactly bkspace apart; otherwise any equal spacing with
+    floor or ceil(range/bkspace) intervals is accepted."""
+    name, val = case['knots'][0], case['knots'][1]
+    if name not in ('nbkpts', 'bkspace') or not np.asarray(sset.mask).all():
+        return []
+    k = case['k']
+    t = np.asarray(sset.breakpoints, dtype=np.float64)
+    inner = t[k - 1:len(t) - k + 1]
+    xg = x[w > 0]
+    lo, hi = float(xg.min()), float(xg.max())
+    R = hi - lo
+    tol = 2.0 ** -22 * max(1.0, abs(lo), abs(hi))
+    if name == 'nbkpts':
+        cands, trig = [max(int(val), 2) - 1], 'nbkpts'
+    else:
+        r = R / float(val)
+        if abs(r - round(r)) <= 1e-9 * max(1.0, r) and round(r) >= 1:
+            cands, trig = [int(round(r))], 'bkspace:range-is-a-whole-multiple'
+        else:
+            cands, trig = sorted({max(int(np.floor(r)), 1), max(int(np.ceil(r)), 1)}), 'bkspace'
+    for m in cands:
+        want = lo + R * np.arange(m + 1) / float(m)
+        if len(inner) == m + 1 and np.all(np.abs(inner - want) <= tol):
+            return []
+    return [('iterfit:breakpoints!=documented:' + trig, '%s=%r on good-point range [%r, %r]: breakpoints %s, expected %d interval(s)'
+             % (name, val, lo, hi, inner.tolist(), cands[0]))]
 
 
 def where_raised(tb):
@@ -169,7 +207,7 @@ def check_procedure(case):
             with warnings.catch_warnings():
                 warnings.simplefilter('ignore')
                 t = np.asarray(bspline(np.sort(x[w > 0]), nord=k, **knot_kwargs(case['knots'])).breakpoints, dtype=np.float64)
-            status = reference_loop(t, k, x, y, w, case['upper'], case['lower'], m + 1 if m > 0 else 1)[3]
+            status = reference_loop(t, k, x, y, w, thresholds(case)[0], thresholds(case)[1], m + 1 if m > 0 else 1)[3]
         except Exception:
             status = 'unknown'
         if status == 'ill-posed':
@@ -181,7 +219,8 @@ def check_procedure(case):
     if mask.shape != x.shape or mask.dtype != bool:
         return [('iterfit:mask-shape', '%r' % (mask,))], 'bad:mask-shape', True, None
     t = np.asarray(sset.breakpoints, dtype=np.float64)
-    fits, masks, conv, status = reference_loop(t, k, x, y, w, case['upper'], case['lower'], m + 1 if m > 0 else 1)
+    bad.extend(check_breakpoints(case, sset, x, w))
+    fits, masks, conv, status = reference_loop(t, k, x, y, w, thresholds(case)[0], thresholds(case)[1], m + 1 if m > 0 else 1)
     if np.any(mask[w <= 0]):
         bad.append(('iterfit:mask-true-at-nonpositive-invvar:' + ('a-refit-is-ill-posed' if status == 'ill-posed' else 'all-fits-well-posed'),
                     'invvar %s mask %s' % (w.tolist(), mask.tolist())))
@@ -231,6 +270,9 @@ def check_procedure(case):
                         'maxiter %d: reference does %d fit(s), masks %s; got mask %s; curve diff to first fit %.3g, to final fit %.3g'
                         % (m, nfit, [mm.astype(int).tolist() for mm in masks], mask.astype(int).tolist(),
                            np.max(np.abs(got - B.dot(fits[0]))), np.max(np.abs(got - B.dot(fits[-1]))))))
+    if case.get('upper') is None or case.get('lower') is None:
+        which = 'neither' if case.get('upper') is None and case.get('lower') is None else ('only-lower' if case.get('upper') is None else 'only-upper')
+        bad = [(sg + ':' + which + '-threshold-passed' if 'documented-loop' in sg or 'maxiter0' in sg else sg, msg) for sg, msg in bad]
     out = 'ok:m%d:fits%d:rej%d' % (m, nfit, nrej) if not bad else 'bad:' + bad[0][0]
     return bad, out, bool(nrej > 0 or np.any(w <= 0)), None
 
@@ -341,7 +383,7 @@ def check_gap(case):
                 break       # the returned mask itself leaves no unique least-squares spline: nothing decidable
             continue
         if len(S):
-            newmask, near = _reject(A, c, y, w, Mp, case['upper'], case['lower'])
+            newmask, near = _reject(A, c, y, w, Mp, thresholds(case)[0], thresholds(case)[1])
             if near:
                 continue
             if not np.array_equal(newmask, M):
@@ -391,7 +433,7 @@ def check_weights(case):
 
 # ------------------------------------------------------------------ enumeration
 KNOTS7 = [['nbkpts', 2], ['nbkpts', 3], ['bkspace', 2.5]]
-KNOTS12 = [['nbkpts', 2], ['nbkpts', 3], ['bkspace', 4.0], ['nbkpts', 8]]    # nbkpts=8: intervals holding exactly one point
+KNOTS12 = [['nbkpts', 2], ['nbkpts', 3], ['bkspace', 5.5], ['nbkpts', 8]]     # bkspace 5.5: the 12-point range (11) is a whole multiple    # nbkpts=8: intervals holding exactly one point
 KNOTSTIE = [['nbkpts', 2], ['nbkpts', 3]]
 # every breakpoint option iterfit forwards to the constructor appears in the permutation layer (12-point sets)
 KNOTS_ORDER12 = [['nbkpts', 2], ['nbkpts', 4], ['bkspace', 3.0], ['everyn', 2], ['everyn', 3], ['everyn', 5],
@@ -432,6 +474,7 @@ def order_configs(T):
             c.append({'n': 7, 'k': 2, 'knots': ['nbkpts', 5], 'zero': [], 'out': [[1, 12.0]], 'ivpat': 0, 'upper': 3, 'lower': 5, 'maxiter': 10})
             c.append({'n': 7, 'k': 2, 'knots': ['everyn', 2], 'zero': [3], 'out': [[1, 12.0]], 'ivpat': 0, 'upper': 3, 'lower': 5, 'maxiter': 10})
         if k == 3:
+            c.append({'n': 7, 'k': 3, 'knots': ['bkspace', 3.0], 'zero': [], 'out': [[1, 12.0]], 'ivpat': 0, 'upper': 3, 'lower': None, 'maxiter': 10})
             c.append({'n': 7, 'k': 3, 'knots': ['everyn', 3], 'zero': [0], 'out': [[4, -12.0]], 'ivpat': 1, 'upper': 5, 'lower': 5, 'maxiter': 2})
         if T:
             c.append({'n': 7, 'k': k, 'knots': kn, 'zero': [0], 'out': [[2, -20.0], [5, 6.0]], 'ivpat': 0, 'upper': 5, 'lower': 5, 'maxiter': 1})
@@ -469,8 +512,14 @@ def tasks(tier):
                 t.append({'part': 'O12', 'k': k, 'knots': kn, 'maxiter': m, 'tier': tier})
     thr = [(5, 5), (3, 5), (3, 3)] if T else [(5, 5), (3, 5)]
     thr12 = thr[:2]
+    # one-sided threshold calls: the keyword that is not passed must act as the documented default 5
+    for k in ((2, 3, 4) if T else (3,)):
+        for kn in [['nbkpts', 3]]:
+            for (up, lo) in [(3, None), (7, None), (None, 3), (None, None)]:
+                for zfirst in ([None] + list(range(12)) if T else ['all']):
+                    t.append({'part': 'P', 'n': 12, 'k': k, 'knots': kn, 'upper': up, 'lower': lo, 'ivpat': 0, 'zfirst': zfirst, 'tier': tier})
     for k in (2, 3, 4):
-        for kn in KNOTS12 + [['everyn', 3]]:
+        for kn in KNOTS12 + [['everyn', 3]] + ([['bkspace', 4.0]] if T and k == 3 else []):
             if kn[0] == 'everyn' and not T and k != 3:
                 continue
             if kn == ['nbkpts', 8] and k == 4:
@@ -489,6 +538,7 @@ def tasks(tier):
                     t.append({'part': 'P', 'n': 7, 'k': k, 'knots': ['nbkpts', 2], 'upper': up, 'lower': lo, 'ivpat': 0, 'zfirst': zfirst, 'tier': tier})
         for (up, lo) in thr:
             for zfirst in [None] + list(range(7)):
+                t.append({'part': 'P', 'n': 7, 'k': 3, 'knots': ['bkspace', 3.0], 'upper': up, 'lower': lo, 'ivpat': 0, 'zfirst': zfirst, 'tier': tier})
                 t.append({'part': 'P', 'n': 7, 'k': 2, 'knots': ['nbkpts', 5], 'upper': up, 'lower': lo, 'ivpat': 0, 'zfirst': zfirst, 'tier': tier})
     # tied abscissae: procedure layer and order layer
     for k in (2, 3):
@@ -616,7 +666,7 @@ def run_task(task):
     # part P
     n = task['n']
     zs = zero_menu(n, T)
-    if T:
+    if T and task.get('zfirst') != 'all':
         zs = [z for z in zs if (z[0] if z else None) == task['zfirst']]
     for zero in zs:
         for out in outlier_menu(n, T):
